@@ -54,12 +54,16 @@ def make_ops(rng, cfg, profile, tier):
                                                     rng.choice([1, 2, 3, 7])]})
         elif r < 0.8:
             ops.append({'op': 'SIMULATE', 'a': [rng.randrange(8), rng.randrange(4)]})
-        elif r < 0.86:
+        elif r < 0.83:
             ops.append({'op': 'LL', 'a': [rng.randrange(8), rng.randrange(4)]})
+        elif r < 0.86:
+            ops.append({'op': 'EVAL_BOUND', 'a': [rng.randrange(8), rng.randrange(4)]})
         elif r < 0.91:
             ops.append({'op': 'CALC_NULL', 'a': [rng.randrange(8), rng.random() < 0.5]})
-        elif r < 0.96:
+        elif r < 0.94:
             ops.append({'op': 'ADD_COLUMN', 'a': [rng.randrange(nf), rng.randrange(2)]})
+        elif r < 0.96:
+            ops.append({'op': 'REORDER_COLUMNS', 'a': [rng.randrange(2), rng.randrange(1 << 16)]})
         else:
             ops.append({'op': 'NEW_FORMULA', 'a': [rng.randrange(1 << 30)]})
     if profile == '' and rng.random() < 0.1:
@@ -310,6 +314,41 @@ class Session:
                         self.sharing_probe(x)
                     self._after_valid()
                 ctx.log(kind, idxs, dbi, T)
+        elif kind == 'REORDER_COLUMNS':
+            dbi = a[0]
+            cols = list(self.dbs[dbi].data.columns)
+            random.Random(a[1]).shuffle(cols)
+            # the user re-arranges the columns of the table (same number of columns)
+            self.dbs[dbi].data = self.dbs[dbi].data[cols]
+            self.biogemes = [r for r in self.biogemes if r['dbi'] != dbi]   # assumption A3
+            ctx.log(kind, dbi)
+        elif kind == 'EVAL_BOUND':
+            # a formula bound to a live BIOGEME object is evaluated on the OTHER table with prepare_ids=True
+            # (temporary numbering, then restored), then on its own table relying on the restored numbering
+            if not self.biogemes:
+                ctx.log(kind, 'skip')
+            else:
+                rec = self.biogemes[a[0] % len(self.biogemes)]
+                fi, dbi = rec['idx'][0], rec['dbi']
+                betas = dict(eb.BETA_VALUES)
+                w_other = self.valid_at(fi, betas, 1 - dbi)
+                w_own = self.valid_at(fi, betas, dbi)
+                if w_other is None or w_own is None:
+                    ctx.log(kind, 'skip-domain')
+                else:
+                    e = self.expr(fi)
+                    for x in rec['idx']:
+                        self.expr(x).set_id_manager(rec['b'].id_manager)   # the numbering of its own object
+                    got = self.lib('get_value_c(prepare_ids=True) of a bound formula on another table',
+                                   lambda: e.get_value_c(database=self.dbs[1 - dbi], aggregation=False, prepare_ids=True))
+                    if got is not None:
+                        self.cmp(f'bound formula {fi} on the other table', got, w_other)
+                        got2 = self.lib('get_value_c(prepare_ids=False) of a bound formula after a temporary renumbering',
+                                        lambda: e.get_value_c(database=self.dbs[dbi], aggregation=False, prepare_ids=False))
+                        if got2 is not None:
+                            self.cmp(f'bound formula {fi} on its own table with the restored numbering', got2, w_own)
+                            ctx.probe('evaluation relying on a restored numbering')
+                    ctx.log(kind, fi)
         elif kind in ('SIMULATE', 'LL', 'CALC_NULL'):
             if not self.biogemes:
                 ctx.log(kind, 'skip')
